@@ -126,6 +126,8 @@ TwoBound ==
                 h2 == d.base \o OpText(d.bounds[2].op) \o d.bounds[2].v
             IN \A i \in 1..NN : MatchL(p, NameSeq[i], 0) = (MatchL(h1, NameSeq[i], 0) /\ MatchL(h2, NameSeq[i], 0))
 
+BestSelf == CompileOk(p) => \A i \in 1..NN : BestMatchL(p, NameSeq[i], NameSeq[i], 0) = BestSelfL(p, NameSeq[i], 0)
+
 TF(b) == IF b THEN "T" ELSE "F"
 Case ==
     LET ok  == CompileOk(p)
@@ -133,8 +135,10 @@ Case ==
         d   == DeweyNew(p)
         row(names, lb) == [i \in 1..Len(names) |-> TF(ok /\ MatchL(p, names[i], lb))]
         drow(lb) == [i \in 1..NN |-> TF(d.ok /\ DeweyMatchesL(d, NameSeq[i], lb))]
-        out(lb) == IF HasBrace THEN [ok |-> TF(ok), m |-> row(NameSeq, lb), xm |-> row(xs, lb)]
-                   ELSE [ok |-> TF(ok), m |-> row(NameSeq, lb), xm |-> row(xs, lb), dok |-> TF(d.ok), dm |-> drow(lb)]
+        \* bm / xbm: the same verdicts asked through best_match(n, n) (BestSelfL)
+        out(lb) == IF HasBrace THEN [ok |-> TF(ok), m |-> row(NameSeq, lb), xm |-> row(xs, lb), bm |-> row(NameSeq, lb), xbm |-> row(xs, lb)]
+                   ELSE [ok |-> TF(ok), m |-> row(NameSeq, lb), xm |-> row(xs, lb), bm |-> row(NameSeq, lb), xbm |-> row(xs, lb),
+                         dok |-> TF(d.ok), dm |-> drow(lb)]
     IN IF out(0) = out(96)
        THEN [op |-> "patrow", each |-> 1, in |-> [p |-> p, xs |-> xs], out |-> out(0)]
        ELSE [op |-> "patrow", each |-> 1, in |-> [p |-> p, xs |-> xs], out |-> out(0), alt |-> [KF1 |-> out(96)]]
